@@ -99,8 +99,16 @@ pub trait O {
     fn e(&self, x: u8) -> u32;
 }
 
-#[unimock(api=FMock, unmock_with=[_, _, real_unm, real_both])]
+// `sides` has no receiver: it is skipped by the macro but still occupies a position in the
+// `unmock_with` list.
+#[unimock(api=FMock, unmock_with=[_, _, _, real_unm, real_both])]
 pub trait F {
+    fn sides() -> u32
+    where
+        Self: Sized,
+    {
+        4
+    }
     fn plain(&self, x: u8) -> u32;
     fn def(&self, x: u8) -> u32 {
         log(LogEv::DefaultBody(M::Def, x));
